@@ -75,7 +75,46 @@ def prepare_package(root):
     return am.AM
 
 
+RENAME = {"x": "log", "y": "er"}
+
+
+def rn(name):
+    """python identifier for an abstract attribute name: in every fifth case the names are short ones that happen to be
+    substrings of framework names ('log', 'er' in 'logger')"""
+    for pre in ("c1_", "c2_", "am_"):
+        if name.startswith(pre):
+            return pre + rn(name[len(pre):])
+    return RENAME.get(name, name)
+
+
+def unrn(name):
+    inv = {v: k for k, v in RENAME.items()}
+    for pre in ("c1_", "c2_", "am_"):
+        if name.startswith(pre):
+            return pre + unrn(name[len(pre):])
+    return inv.get(name, name)
+
+
+def renamed(c):
+    c = json.loads(json.dumps(c))
+    for spec in c["comp"].values():
+        for a in spec["attrs"]:
+            a["n"] = rn(a["n"])
+        for p in spec["ctor"]:
+            p["n"] = rn(p["n"])
+    c["robot"] = {rn(n): k for n, k in c["robot"].items()}
+    for a in c["mode"]:
+        a["n"] = rn(a["n"])
+    return c
+
+
 def run_case(c, AM, uid):
+    X = "x"
+    back = (lambda n: n)
+    if uid % 5 == 2:
+        back = unrn
+        c = renamed(c)
+        X = rn("x")
     order = c["order"]
     K = {}
     ANN = {"A": A, "B": B, "C": C, "int": int, "str": str, "listint": list[int], "bool": bool,
@@ -96,7 +135,7 @@ def run_case(c, AM, uid):
         body = ["    pass"]
         if c.get("same"):
             # one class for both components: the constructor presets x only when told to (own)
-            body += ["    if own:", "        self.x = PRESET"]
+            body += ["    if own:", "        self.%s = PRESET" % X]
         else:
             body += ["    self.%s = PRESET" % n for n in init_presets]
         body += ["    self._ctor_%s = %s" % (p["n"].lstrip("_"), p["n"]) for p in ctor]
@@ -116,8 +155,11 @@ def run_case(c, AM, uid):
         inherited = [a for a in spec["attrs"] if a["preset"] == "inherited"]
         basepreset = [a for a in spec["attrs"] if a["preset"] == "baseclass"]
         bases = (object,)
+        if uid % 3 == 1 and ctor and not c.get("same"):
+            # the constructor (with its annotated parameters) is inherited from a base component class
+            bases = (type("CtorBase_%s_%d" % (cn, uid), (object,), {"__init__": ns.pop("__init__")}),)
         if inherited or basepreset:
-            bases = (type("Base_%s_%d" % (cn, uid), (object,),
+            bases = (type("Base_%s_%d" % (cn, uid), bases,
                           dict({"__annotations__": {}}, **{a["n"]: PRESET for a in basepreset})),)
         K[cn] = type("K_%s_%d" % (cn, uid), bases, ns)
         if c.get("same") and len(K) == 2:
@@ -172,9 +214,9 @@ def run_case(c, AM, uid):
     def ident(v, owner, n):
         for name in (n, owner + "_" + n):
             if name in K and v is getattr(r, name, None):
-                return "comp." + name
+                return "comp." + back(name)
             if name in vals and vals[name] is not None and v is vals[name]:
-                return "robot." + name
+                return "robot." + back(name)
         return "preset" if v is PRESET else "unset" if v is UNSET else "other"
     out = {"ok": True, "attrs": {}, "ctor": {}, "mode": [], "setup_ok": witness["setup_ok"],
            "setup_calls": witness["setup_calls"]}
